@@ -333,6 +333,7 @@ def correspondence(ctx):
             ctx.count('mode/trace')
         ctx.sample({'fmt': p.img.fmt, 'tag': p.img.tag, 'length': len(p.img.data), 'chunking': p.ctag,
                     'chunks': len(p.sizes), 'implementation': impl.split('\t')[-1]}, 5)
+    G.add_companions(pairs, rng)
     out += G.run_pairs(ctx, pairs, on)
     # a few sparse streams (> 4 GiB; zero gaps skipped by the model through the inspx request)
     sparse = G.far_images(rng, True)[:3 if ctx.quick else 4] + G.sparse_generic(rng, rng.sample(G.FORMATS, 4) if ctx.quick else None)
@@ -349,7 +350,7 @@ def correspondence(ctx):
 REF = 512
 
 
-def stream_oracle(ctx, img, family, rng, fails, budget_pokes=2, poke_p=0.2, presentations=2, forced=None):
+def stream_oracle(ctx, img, family, rng, fails, budget_pokes=2, poke_p=0.2, presentations=2, forced=None, companion=None):
     """same bytes, every chunking: verdict equal to the verdict under 512-byte blocks, every retained
     region equal to the stream slice at its offsets, intermediate queries change nothing.
     Appends at most one Failure per image."""
@@ -432,6 +433,29 @@ def stream_oracle(ctx, img, family, rng, fails, budget_pokes=2, poke_p=0.2, pres
                 f.case.update(feed=feed, ctor=ctor)
                 fails.append(f)
                 return
+    # another object of the same class alive at the same time, fed a different stream (before / interleaved /
+    # after): nothing it is shown may change what this one reports
+    pool = ctx.__dict__.setdefault('_c01_pool', {}).setdefault(fmt, [])
+    junk = bytes(rng.randrange(256) for _ in range(700))
+    others = pool[-3:] + [junk]
+    pool.append(data[:1 << 20])
+    comps = [companion] if companion else [(rng.choice(others), None, m) for m in
+                                           (G.COMPANION_MODES if presentations >= 5 else [rng.choice(G.COMPANION_MODES)])]
+    for od, osz, mode in comps:
+        osz = osz or rng.choice([[len(od)], G.fixed(len(od), 512), G.fixed(len(od), 300)])
+        for k, (tag, sizes) in enumerate(family):
+            if k not in plain or len(sizes) > 1200 or not (tag in ('one', 'fixed512', 'seed') or rng.random() < 0.1):
+                continue
+            ctx.evaluations += 1
+            ctx.count('search/companion/' + mode)
+            c = G.impl_run(fmt, data, sizes, companion=(od, osz, mode))[0]
+            if c != plain[k]:
+                f = make_failure(img, sizes, sizes, 'verdict-depends-on-another-live-inspector',
+                                 'chunks %s to a %s inspector alone: %s | with a second %s inspector fed %d other bytes %s: %s'
+                                 % (G.pack_sizes(sizes)[:8], fmt, plain[k], fmt, len(od), mode, c))
+                f.case['companion'] = {'content': G.content_field(od), 'sizes': G.pack_sizes(osz), 'mode': mode}
+                fails.append(f)
+                return
 
 
 def slices_bad_anytime(fmt, data, sizes):
@@ -453,7 +477,7 @@ def wrap_core(line):
     return f[1] + '\t' + f[2] + '\t' + G.core(f[3])
 
 
-def wrapper_oracle(ctx, img, family, fails, allowed=None, expected=None):
+def wrapper_oracle(ctx, img, family, fails, allowed=None, expected=None, companion=None):
     data = img.data
     n = len(data)
     ref_sizes = G.fixed(n, REF)
@@ -477,6 +501,24 @@ def wrapper_oracle(ctx, img, family, fails, allowed=None, expected=None):
                                 ' '.join(c.split('\t')[:2])), ckind='wrap')
             if allowed or expected:
                 f.case.update(allowed=allowed, expected=expected)
+            fails.append(f)
+            return
+    # a second InspectWrapper alive at the same time, reading other data
+    pool = ctx.__dict__.setdefault('_c01_wpool', [])
+    other = companion[0] if companion else (ctx.rng.choice(pool[-4:]) if pool else bytes(700))
+    pool.append(data[:1 << 20])
+    for tag, sizes in family[:2]:
+        mode = companion[2] if companion else ctx.rng.choice(G.COMPANION_MODES)
+        osz = companion[1] if companion else G.fixed(len(other), 4096)
+        ctx.evaluations += 1
+        ctx.count('search/companion/wrapper-' + mode)
+        c = wrap_core(G.run_wrap_x(allowed, expected, data, sizes, (other, osz, mode)))
+        if c != run(sizes):
+            f = make_failure(img, sizes, sizes, 'wrapper-verdict-depends-on-another-live-wrapper',
+                             'InspectWrapper alone: %s | with a second InspectWrapper reading %d other bytes %s: %s'
+                             % (' '.join(run(sizes).split('\t')[:2]), len(other), mode, ' '.join(c.split('\t')[:2])), ckind='wrap')
+            f.case.update(allowed=allowed, expected=expected,
+                          companion={'content': G.content_field(other), 'sizes': G.pack_sizes(osz), 'mode': mode})
             fails.append(f)
             return
 
@@ -574,11 +616,12 @@ def search(ctx, seeds, full=False):
         img = img_of_case(s)
         fam = [('seed', G.unpack_sizes(s['sizes']))] + search_family(ctx, img, rng, True)
         if s['kind'] == 'wrap':
-            wrapper_oracle(ctx, img, fam, fails, s.get('allowed'), s.get('expected'))
+            wrapper_oracle(ctx, img, fam, fails, s.get('allowed'), s.get('expected'), G.companion_of_case(s))
         else:
             before = len(fails)
             forced = [(s.get('feed', 'bytes'), s.get('ctor') or {})] if (s.get('feed') or s.get('ctor')) else None
-            stream_oracle(ctx, img, fam, rng, fails, budget_pokes=10 ** 6, poke_p=1.0, forced=forced)
+            stream_oracle(ctx, img, fam, rng, fails, budget_pokes=10 ** 6, poke_p=1.0, forced=forced,
+                          companion=G.companion_of_case(s))
             if len(fails) == before:
                 stream_oracle(ctx, img, fam, rng, fails, budget_pokes=0, presentations=5)
         if enough():
@@ -630,6 +673,8 @@ def candidate_class(failure, listed_ids):
         return None
     data = G.decode_content(case['content'])
     kind = det.get('kind')
+    if case.get('companion') or case.get('feed') or case.get('ctor'):
+        return None
     if case['kind'] == 'wrap':
         al, ex = case.get('allowed'), case.get('expected')
         ref = wrap_core(insp_impl.run_wrap(al, ex, data, G.unpack_sizes(case['sizes_a']))[0])
@@ -754,6 +799,9 @@ def replay(ctx, payload):
         p = G.Pair(G.Img(case['fmt'], data, [], case.get('tag', '')), sizes, 'replay', trace=bool(case.get('trace')), kind=kind,
                    feed=case.get('feed', 'bytes'), ctor=case.get('ctor'), allowed=case.get('allowed'), expected=case.get('expected'),
                    poke=bool(case.get('poke')))
+        p.companion = G.companion_of_case(case)
+        if p.companion:
+            print('a second %s alive at the same time, fed %d other bytes %s' % ('InspectWrapper' if kind == 'wrap' else case['fmt'] + ' inspector', len(p.companion[0]), p.companion[2]))
         import random
         impl = G.run_impl(p, random.Random(0))
         if kind == 'wrap':
@@ -767,6 +815,20 @@ def replay(ctx, payload):
         print('implementation:', impl[-3000:])
         print('model         :', model[-3000:])
         return 1 if impl != model else 0
+    if case.get('companion') and 'sizes_b' in case:
+        comp = G.companion_of_case(case)
+        sizes = G.unpack_sizes(case['sizes_b'])
+        al, ex = case.get('allowed'), case.get('expected')
+        alone = G.impl_final(case['fmt'], data, sizes, kind, allowed=al, expected=ex)
+        both = G.impl_final(case['fmt'], data, sizes, kind, allowed=al, expected=ex, companion=comp)
+        model = G.model_replies(ctx, case['fmt'], case['content'], [sizes], kind, al, ex)[0]
+        what = 'InspectWrapper' if kind == 'wrap' else case['fmt'] + ' inspector'
+        print('%s, %d bytes, chunk sizes %s' % (what, len(data), case['sizes_b'][:12]))
+        print('  implementation, alone:', alone.split('\t', 2)[-1][-1200:])
+        print('  implementation, with a second %s fed %d other bytes %s:' % (what, len(comp[0]), comp[2]), both.split('\t', 2)[-1][-1200:])
+        print('  model                :', model.split('\t', 2)[-1][-1200:])
+        print('property oracle on the implementation: %s' % ('DIFFERS' if alone != both else 'equal'))
+        return 1 if alone != both else 0
     if kind == 'insp' and (case.get('feed') or case.get('ctor')):
         sizes = G.unpack_sizes(case['sizes_b'])
         feed, ctor = case.get('feed', 'bytes'), case.get('ctor') or {}
